@@ -120,3 +120,10 @@ def shard(mon, tier, rng, shard_no, nshards):
         case, order = make(rng, variant)
         tr = runs.run_case(case, order, mon, max_extra_steps=0)
         judge_run(mon, tr, case, variant)
+
+
+def replay(mon, rec):
+    def chk(mon, tr):
+        print("premise held:", runchecks.premise_holds(tr), "P =", sorted(tr.alg.P))
+        runchecks.conclusion_c01(mon, tr)
+    runs.replay_runs(mon, rec, chk)
